@@ -268,6 +268,10 @@ Qed.
 Definition bline_ok (st : option ascii) (b : bline) : Prop :=
   match b with BBlank _ => True | BComment _ t => st = None /\ plain_comment t end.
 
+(* what the first character of a line's text must be when the line does not start with '&' *)
+Definition head_ok (x : str) : Prop :=
+  nsfirst x /\ head_is hash x = false /\ head_is amp x = false.
+
 (* st = literal state at the start of the segment *)
 Definition seg_ok (st : option ascii) (first last : bool) (sg : seg) : Prop :=
   let st' := qrun st (sg_text sg) in
@@ -275,7 +279,8 @@ Definition seg_ok (st : option ascii) (first last : bool) (sg : seg) : Prop :=
   bang_free st (sg_text sg) = true /\
   match sg_comment sg with Some t => st = None /\ st' = None /\ plain_comment t | None => True end /\
   (last = false -> Forall (bline_ok st') (sg_between sg)) /\
-  (first = true -> nsfirst (sg_text sg) /\ head_is hash (sg_text sg) = false /\ head_is amp (sg_text sg) = false) /\
+  (first = true -> head_ok (sg_text sg) /\ head_is semi (sg_text sg) = false) /\
+  (first = false -> sg_amp sg = false -> head_ok (sg_text sg)) /\
   (last = true -> nslast (sg_text sg) /\ last_is amp (sg_text sg) = false).
 
 Fixpoint segs_ok (st : option ascii) (first : bool) (l : list seg) : Prop :=
@@ -318,15 +323,52 @@ Proof.
   unfold nslast. simpl. destruct (rev x) as [|d y]; [tauto|]. simpl. auto.
 Qed.
 
-Lemma qstate_buf prefix : qstate (" "%char :: prefix) = qrun None prefix.
-Proof. reflexivity. Qed.
+(* stripping removes blanks only, and blanks never change the literal state *)
+Lemma space_not_quote c : is_space c = true -> is_quote c = false.
+Proof.
+  intros H. destruct (is_quote c) eqn:Q; [|reflexivity].
+  destruct (is_quote_cases c Q); subst; discriminate.
+Qed.
+
+Lemma lstrip_split x : exists ws, x = ws ++ lstrip x /\ Forall (fun c => is_space c = true) ws.
+Proof.
+  induction x as [|c x IH]; [exists []; split; [reflexivity|constructor]|].
+  simpl. destruct (is_space c) eqn:E.
+  - destruct IH as (ws & Hx & Hw). exists (c :: ws). split; [simpl; now rewrite <- Hx|now constructor].
+  - exists []. split; [reflexivity|constructor].
+Qed.
+
+Lemma qrun_spaces_any st ws : Forall (fun c => is_space c = true) ws -> qrun st ws = st.
+Proof.
+  intros H. apply qrun_no_quote. induction H as [|c ws Hc _ IH]; constructor; auto.
+  now apply space_not_quote.
+Qed.
+
+Lemma qrun_lstrip st x : qrun st (lstrip x) = qrun st x.
+Proof.
+  destruct (lstrip_split x) as (ws & Hx & Hw). rewrite Hx at 2.
+  rewrite qrun_app, (qrun_spaces_any st ws Hw). reflexivity.
+Qed.
+
+Lemma qrun_rstrip st x : qrun st (rstrip x) = qrun st x.
+Proof.
+  unfold rstrip. destruct (lstrip_split (rev x)) as (ws & Hx & Hw).
+  assert (E : x = rev (lstrip (rev x)) ++ rev ws).
+  { rewrite <- (rev_involutive x) at 1. rewrite Hx at 1. now rewrite rev_app_distr. }
+  rewrite E at 2. rewrite qrun_app.
+  rewrite (qrun_spaces_any _ (rev ws)); [reflexivity|].
+  rewrite Forall_forall in *. intros c Hc. apply Hw. now apply in_rev.
+Qed.
+
+Lemma qrun_strip st x : qrun st (strip x) = qrun st x.
+Proof. unfold strip. now rewrite qrun_rstrip, qrun_lstrip. Qed.
 
 Lemma bang_free_amp_wrap st text (pre post : bool) :
   bang_free st ((if pre then [amp] else []) ++ text ++ (if post then [amp] else [])) = bang_free st text.
 Proof.
   assert (Ha : forall st0 x, bang_free st0 (amp :: x) = bang_free st0 x).
   { intros st0 x. simpl. destruct st0 as [q|]; [|reflexivity].
-    unfold qstep. simpl. destruct (Ascii.eqb amp q); reflexivity || reflexivity. }
+    unfold qstep. simpl. destruct (Ascii.eqb amp q); reflexivity. }
   assert (Hb : forall st0, bang_free st0 (if post then [amp] else []) = true).
   { intros st0. destruct post; [|reflexivity]. rewrite Ha. reflexivity. }
   destruct pre; simpl app; rewrite ?Ha, bang_free_app, Hb, andb_true_r; reflexivity.
@@ -339,14 +381,27 @@ Proof.
   destruct pre, post; simpl app; rewrite ?qrun_cons, ?Ha, ?qrun_app; simpl; rewrite ?Ha, ?app_nil_r; reflexivity.
 Qed.
 
+(* the buffer after a segment has been joined *)
+Definition next_buf (buf : str) (sg : seg) : str :=
+  if sg_amp sg then buf ++ sg_text sg else strip buf ++ " "%char :: sg_text sg.
+
+Lemma qstate_next_buf buf sg : qstate (next_buf buf sg) = qrun (qstate buf) (sg_text sg).
+Proof.
+  unfold next_buf, qstate. fold (qrun None buf). destruct (sg_amp sg).
+  - apply qrun_app.
+  - change (strip buf ++ " "%char :: sg_text sg) with (strip buf ++ [" "%char] ++ sg_text sg).
+    fold (qrun None (strip buf ++ [" "%char] ++ sg_text sg)).
+    rewrite !qrun_app, qrun_strip. reflexivity.
+Qed.
+
 (* the first segment, read in the initial loop state *)
 Lemma step_first_seg g last sg :
   clean g -> seg_ok None true last sg ->
   step default_cfg g linit (render_seg_line true last sg) =
   SNext g (if last then done_state (" "%char :: sg_text sg) else cont_state (" "%char :: sg_text sg)) last.
 Proof.
-  intros (Hdb & Hpd & Hra) (Hok & Hbf & Hcm & _ & Hfirst & Hlast).
-  destruct (Hfirst eq_refl) as (Hns & Hh & Ha).
+  intros (Hdb & Hpd & Hra) (Hok & Hbf & Hcm & _ & Hfirst & _ & Hlast).
+  destruct (Hfirst eq_refl) as ((Hns & Hh & Ha) & _).
   unfold render_seg_line. cbn [app].
   set (core := sg_text sg ++ (if last then [] else [amp])).
   assert (Hcf : nsfirst core).
@@ -356,8 +411,7 @@ Proof.
   assert (Hch : head_is hash core = false).
   { unfold core. destruct (sg_text sg); [destruct Hns|exact Hh]. }
   assert (Hq : qrun None core = qrun None (sg_text sg)).
-  { unfold core. apply (qrun_amp_wrap None (sg_text sg) false (negb last)) || idtac.
-    destruct last; simpl; [now rewrite app_nil_r|]. rewrite qrun_app. simpl. apply qstep_nq. reflexivity. }
+  { unfold core. destruct last; simpl; [now rewrite app_nil_r|]. rewrite qrun_app. simpl. apply qstep_nq. reflexivity. }
   assert (Hb : bang_free None core = true).
   { unfold core. destruct last; [now rewrite app_nil_r|].
     rewrite bang_free_app, Hbf. simpl. destruct (qrun None (sg_text sg)); reflexivity. }
@@ -369,120 +423,136 @@ Proof.
     simpl. rewrite Hq. auto. }
   rewrite (step_code_line g linit (sg_ind sg) core (sg_trail sg) (sg_comment sg)
              Hdb Hra eq_refl eq_refl Hcf Hcl Hch I Hb Hcmt).
-  (* join_line *)
   unfold join_line. destruct core as [|ch rest] eqn:Ec; [destruct Hcf|].
-    assert (Hamp : Ascii.eqb ch amp = false).
-    { unfold core in Ec. destruct (sg_text sg) as [|c0 t0]; [destruct Hns|].
-      simpl in Ec. injection Ec as <- _. simpl in Ha. now rewrite Ascii.eqb_sym. }
-    rewrite Hamp. cbn [linit linebuffer continued]. change (strip []) with (@nil ascii).
-    cbn [app]. rewrite <- Ec. unfold core.
-    destruct g as [db pd ra]. simpl in Hdb, Hpd, Hra. subst.
-    destruct last.
-    + rewrite app_nil_r. destruct (Hlast eq_refl) as (_ & Hla). rewrite Hla. reflexivity.
-    + rewrite last_is_snoc, removelast_last. reflexivity.
+  assert (Hamp : Ascii.eqb ch amp = false).
+  { unfold core in Ec. destruct (sg_text sg) as [|c0 t0]; [destruct Hns|].
+    simpl in Ec. injection Ec as <- _. simpl in Ha. now rewrite Ascii.eqb_sym. }
+  rewrite Hamp. cbn [linit linebuffer continued]. change (strip []) with (@nil ascii).
+  cbn [app]. rewrite <- Ec. unfold core.
+  destruct g as [db pd ra]. simpl in Hdb, Hpd, Hra. subst.
+  destruct last.
+  + rewrite app_nil_r. destruct (Hlast eq_refl) as (_ & Hla). rewrite Hla. reflexivity.
+  + rewrite last_is_snoc, removelast_last. reflexivity.
 Qed.
 
-(* a continuation segment, read while the statement is being continued *)
-Lemma step_cont_seg g prefix last sg :
-  clean g -> seg_ok (qrun None prefix) false last sg ->
-  step default_cfg g (cont_state (" "%char :: prefix)) (render_seg_line false last sg) =
-  SNext g (if last then done_state (" "%char :: prefix ++ sg_text sg)
-           else cont_state (" "%char :: prefix ++ sg_text sg)) last.
+Lemma ne_app_nslast (b x : str) : nslast x -> match b ++ x with [] => true | _ :: _ => false end = false.
 Proof.
-  intros (Hdb & Hpd & Hra) (Hok & Hbf & Hcm & _ & _ & Hlast).
+  unfold nslast. destruct (rev x) eqn:E; [tauto|]. intros _. destruct b; [|reflexivity].
+  simpl. destruct x; [discriminate E|reflexivity].
+Qed.
+
+Lemma ne_app_cons (a : str) c (b : str) : match a ++ c :: b with [] => true | _ :: _ => false end = false.
+Proof. destruct a; reflexivity. Qed.
+
+(* a continuation segment, read while the statement is being continued *)
+Lemma step_cont_seg g buf last sg :
+  clean g -> seg_ok (qstate buf) false last sg ->
+  step default_cfg g (cont_state buf) (render_seg_line false last sg) =
+  SNext g (if last then done_state (next_buf buf sg) else cont_state (next_buf buf sg)) last.
+Proof.
+  intros (Hdb & Hpd & Hra) (Hok & Hbf & Hcm & _ & _ & Hhead & Hlast).
   unfold render_seg_line.
-  set (core := [amp] ++ sg_text sg ++ (if last then [] else [amp])).
-  assert (Hcf : nsfirst core) by reflexivity.
+  set (core := (if sg_amp sg then [amp] else []) ++ sg_text sg ++ (if last then [] else [amp])).
+  assert (Hcf : nsfirst core).
+  { unfold core. destruct (sg_amp sg) eqn:Ea; [reflexivity|].
+    destruct (Hhead eq_refl eq_refl) as (Hns & _). simpl. destruct (sg_text sg); [destruct Hns|exact Hns]. }
+  assert (Hch : head_is hash core = false).
+  { unfold core. destruct (sg_amp sg) eqn:Ea; [reflexivity|].
+    destruct (Hhead eq_refl eq_refl) as (Hns & Hh & _). simpl. destruct (sg_text sg); [destruct Hns|exact Hh]. }
   assert (Hcl : nslast core).
   { unfold core. destruct last.
-    - rewrite app_nil_r. apply nslast_cons. now apply Hlast.
+    - rewrite app_nil_r. destruct (sg_amp sg); [apply nslast_cons|]; now apply Hlast.
     - rewrite app_assoc. now apply nslast_snoc. }
   assert (Hq : forall st0, qrun st0 core = qrun st0 (sg_text sg)).
   { intros st0. unfold core. destruct last.
-    - apply (qrun_amp_wrap st0 (sg_text sg) true false).
-    - apply (qrun_amp_wrap st0 (sg_text sg) true true). }
-  assert (Hb : bang_free (qrun None prefix) core = true).
+    - apply (qrun_amp_wrap st0 (sg_text sg) (sg_amp sg) false).
+    - apply (qrun_amp_wrap st0 (sg_text sg) (sg_amp sg) true). }
+  assert (Hb : bang_free (qstate buf) core = true).
   { unfold core. destruct last.
-    - rewrite (bang_free_amp_wrap _ (sg_text sg) true false). exact Hbf.
-    - rewrite (bang_free_amp_wrap _ (sg_text sg) true true). exact Hbf. }
+    - rewrite (bang_free_amp_wrap _ (sg_text sg) (sg_amp sg) false). exact Hbf.
+    - rewrite (bang_free_amp_wrap _ (sg_text sg) (sg_amp sg) true). exact Hbf. }
   assert (Hcmt : match sg_comment sg with
                  | None => True
-                 | Some t => qstate (linebuffer (cont_state (" "%char :: prefix))) = None /\
+                 | Some t => qstate (linebuffer (cont_state buf)) = None /\
                              qrun None core = None /\ plain_comment t
                  end).
-  { cbn [cont_state linebuffer]. rewrite qstate_buf.
+  { cbn [cont_state linebuffer].
     destruct (sg_comment sg) as [t|]; [|exact I]. destruct Hcm as (H1 & H2 & H3).
     rewrite H1 in *. rewrite Hq. auto. }
-  assert (Hok' : st_ok (qstate (linebuffer (cont_state (" "%char :: prefix))))).
-  { cbn [cont_state linebuffer]. rewrite qstate_buf. exact Hok. }
-  assert (Hb' : bang_free (qstate (linebuffer (cont_state (" "%char :: prefix)))) core = true).
-  { cbn [cont_state linebuffer]. rewrite qstate_buf. exact Hb. }
-  rewrite (step_code_line g (cont_state (" "%char :: prefix)) (sg_ind sg) core (sg_trail sg) (sg_comment sg)
-             Hdb Hra eq_refl eq_refl Hcf Hcl eq_refl Hok' Hb' Hcmt).
-  unfold join_line, core. cbn [app]. rewrite Ascii.eqb_refl. cbn [cont_state continued linebuffer].
-    destruct g as [db pd ra]. simpl in Hdb, Hpd, Hra. subst.
+  rewrite (step_code_line g (cont_state buf) (sg_ind sg) core (sg_trail sg) (sg_comment sg)
+             Hdb Hra eq_refl eq_refl Hcf Hcl Hch Hok Hb Hcmt).
+  unfold join_line, core, next_buf.
+  destruct g as [db pd ra]. simpl in Hdb, Hpd, Hra. subst.
+  destruct (sg_amp sg) eqn:Ea.
+  - cbn [app]. rewrite Ascii.eqb_refl. cbn [cont_state continued linebuffer].
     destruct last.
     + rewrite app_nil_r. destruct (Hlast eq_refl) as (Hnl & Hla).
-      rewrite (is_blank_nslast _ Hnl), Hla. cbn [app]. reflexivity.
+      rewrite (is_blank_nslast _ Hnl), Hla. rewrite (ne_app_nslast buf _ Hnl). reflexivity.
     + rewrite (is_blank_snoc_ns (sg_text sg) amp eq_refl), last_is_snoc, removelast_last.
-      cbn [app]. reflexivity.
+      cbn [negb]. rewrite andb_false_r. reflexivity.
+  - destruct (Hhead eq_refl eq_refl) as (Hns & _ & Ha).
+    cbn [app]. destruct (sg_text sg) as [|c0 t0] eqn:Et; [destruct Hns|].
+    cbn [app]. unfold head_is in Ha. rewrite Ascii.eqb_sym in Ha. rewrite Ha.
+    cbn [cont_state continued linebuffer].
+    destruct last.
+    + rewrite app_nil_r. destruct (Hlast eq_refl) as (_ & Hla). rewrite Hla.
+      change (s " ") with [" "%char]. rewrite <- app_assoc. cbn [app]. rewrite ne_app_cons. reflexivity.
+    + change (c0 :: t0 ++ [amp]) with ((c0 :: t0) ++ [amp]).
+      rewrite last_is_snoc, removelast_last.
+      change (s " ") with [" "%char]. rewrite <- app_assoc. cbn [app negb]. rewrite andb_false_r. reflexivity.
 Qed.
 
 (* ---------- a whole logical line ---------- *)
 
 Lemma loop_between g buf bl rest :
-  clean g -> Forall (bline_ok (qrun None buf)) bl ->
-  loop default_cfg g (cont_state (" "%char :: buf)) (map render_bline bl ++ rest)
-  = loop default_cfg g (cont_state (" "%char :: buf)) rest.
+  clean g -> Forall (bline_ok (qstate buf)) bl ->
+  loop default_cfg g (cont_state buf) (map render_bline bl ++ rest)
+  = loop default_cfg g (cont_state buf) rest.
 Proof.
   intros Hg H. induction H as [|b bl Hb _ IH]; [reflexivity|].
   cbn [map app loop]. destruct b as [n|i t]; cbn [render_bline].
   - rewrite step_blank; [exact IH|exact Hg|split; reflexivity|left; reflexivity].
   - destruct Hb as (Hst & Hp).
     rewrite step_comment_line; [exact IH|exact Hg|split; reflexivity|left; reflexivity| |exact Hp].
-    cbn [cont_state linebuffer]. unfold unterminated. rewrite qstate_buf, Hst. reflexivity.
+    cbn [cont_state linebuffer]. unfold unterminated. rewrite Hst. reflexivity.
 Qed.
 
-Lemma loop_cont_segs g segs : forall prefix rest,
-  clean g -> segs_ok (qrun None prefix) false segs ->
-  loop default_cfg g (cont_state (" "%char :: prefix)) (render_segs false segs ++ rest)
-  = LDone g (done_state (" "%char :: prefix ++ ll_text segs)) rest.
+Lemma loop_cont_segs g segs : forall buf rest,
+  clean g -> segs_ok (qstate buf) false segs ->
+  loop default_cfg g (cont_state buf) (render_segs false segs ++ rest)
+  = LDone g (done_state (joined_from buf segs)) rest.
 Proof.
-  induction segs as [|sg segs IH]; intros prefix rest Hg Hok; [destruct Hok|].
+  induction segs as [|sg segs IH]; intros buf rest Hg Hok; [destruct Hok|].
   destruct segs as [|sg2 segs].
-  - (* last segment *)
-    cbn [render_segs app loop]. cbn [segs_ok] in Hok.
-    rewrite (step_cont_seg g prefix true sg Hg Hok).
-    unfold ll_text. cbn [flat_map]. now rewrite app_nil_r.
+  - cbn [render_segs app loop]. cbn [segs_ok] in Hok.
+    rewrite (step_cont_seg g buf true sg Hg Hok). reflexivity.
   - destruct Hok as (Hsg & Hrest).
     change (render_segs false (sg :: sg2 :: segs))
       with (render_seg_line false false sg :: map render_bline (sg_between sg) ++ render_segs false (sg2 :: segs)).
-    cbn [app loop]. rewrite (step_cont_seg g prefix false sg Hg Hsg).
+    cbn [app loop]. rewrite (step_cont_seg g buf false sg Hg Hsg).
     rewrite <- app_assoc. rewrite loop_between.
-    + rewrite <- qrun_app in Hrest. rewrite (IH (prefix ++ sg_text sg) rest Hg Hrest).
-      unfold ll_text. cbn [flat_map]. now rewrite <- app_assoc.
+    + rewrite <- qstate_next_buf in Hrest. rewrite (IH (next_buf buf sg) rest Hg Hrest). reflexivity.
     + exact Hg.
-    + destruct Hsg as (_ & _ & _ & Hbt & _). rewrite qrun_app. now apply Hbt.
+    + destruct Hsg as (_ & _ & _ & Hbt & _). rewrite qstate_next_buf. now apply Hbt.
 Qed.
 
 Theorem loop_logical_line g segs rest :
   clean g -> segs_ok None true segs ->
   loop default_cfg g linit (render_segs true segs ++ rest)
-  = LDone g (done_state (" "%char :: ll_text segs)) rest.
+  = LDone g (done_state (joined segs)) rest.
 Proof.
   intros Hg Hok. destruct segs as [|sg segs]; [destruct Hok|].
   destruct segs as [|sg2 segs].
   - cbn [render_segs app loop]. cbn [segs_ok] in Hok.
-    rewrite (step_first_seg g true sg Hg Hok).
-    unfold ll_text. cbn [flat_map]. now rewrite app_nil_r.
+    rewrite (step_first_seg g true sg Hg Hok). reflexivity.
   - destruct Hok as (Hsg & Hrest).
     change (render_segs true (sg :: sg2 :: segs))
       with (render_seg_line true false sg :: map render_bline (sg_between sg) ++ render_segs false (sg2 :: segs)).
     cbn [app loop]. rewrite (step_first_seg g false sg Hg Hsg).
     rewrite <- app_assoc. rewrite loop_between.
-    + change (qrun None (sg_text sg)) with (qrun None ([] ++ sg_text sg)) in Hrest.
-      rewrite (loop_cont_segs g (sg2 :: segs) (sg_text sg) rest Hg Hrest).
-      unfold ll_text. cbn [flat_map]. reflexivity.
+    + assert (Eq : qstate (" "%char :: sg_text sg) = qrun None (sg_text sg)) by reflexivity.
+      rewrite <- Eq in Hrest.
+      rewrite (loop_cont_segs g (sg2 :: segs) (" "%char :: sg_text sg) rest Hg Hrest). reflexivity.
     + exact Hg.
     + destruct Hsg as (_ & _ & _ & Hbt & _). now apply Hbt.
 Qed.
@@ -518,19 +588,61 @@ Proof.
       destruct (Ascii.eqb d sq); apply IH; discriminate.
 Qed.
 
-Lemma emit_done g buf :
-  clean g ->
-  emit default_cfg g (done_state (" "%char :: buf)) = Some (stmts_of buf, g).
+(* buffers that begin (after at most one blank) with a non-blank character other than ';' *)
+Definition good_head (buf : str) : Prop :=
+  exists c y, (buf = " "%char :: c :: y \/ buf = c :: y) /\ is_space c = false /\ Ascii.eqb c semi = false.
+
+Lemma good_head_split buf : good_head buf ->
+  exists y ys, quote_split semi buf = y :: ys /\ y <> [].
 Proof.
-  intros (Hdb & Hpd & Hra). destruct g as [db pd ra]. simpl in *. subst.
+  intros (c & y & [E|E] & Hs & Hc); subst buf; unfold quote_split.
+  - change (qsplit semi 0 false [] (" "%char :: c :: y)) with (qsplit semi 0 false [" "%char] (c :: y)).
+    apply qsplit_head_nonempty. discriminate.
+  - cbn [qsplit]. destruct (Ascii.eqb c dq); [apply qsplit_head_nonempty; discriminate|].
+    destruct (Ascii.eqb c sq); [apply qsplit_head_nonempty; discriminate|].
+    rewrite Hc. apply qsplit_head_nonempty. discriminate.
+Qed.
+
+Lemma strip_keeps_head c y : is_space c = false -> exists y', strip (c :: y) = c :: y'.
+Proof. intros H. apply (strip_head 0 c y H). Qed.
+
+Lemma good_head_next buf sg : good_head buf -> good_head (next_buf buf sg).
+Proof.
+  intros (c & y & E & Hs & Hc). unfold next_buf. destruct (sg_amp sg).
+  - destruct E as [E|E]; subst buf; exists c; eexists; (split; [|split; assumption]); [left|right]; reflexivity.
+  - assert (Hst : exists y', strip buf = c :: y').
+    { destruct E as [E|E]; subst buf.
+      - apply (strip_head 1 c y Hs).
+      - now apply strip_keeps_head. }
+    destruct Hst as (y' & E'). rewrite E'. exists c. eexists. split; [right; reflexivity|split; assumption].
+Qed.
+
+Lemma good_head_joined_from segs : forall buf, good_head buf -> good_head (joined_from buf segs).
+Proof.
+  induction segs as [|sg segs IH]; intros buf H; [exact H|].
+  cbn [joined_from]. apply IH. apply (good_head_next buf sg H).
+Qed.
+
+Lemma good_head_joined segs : segs_ok None true segs -> good_head (joined segs).
+Proof.
+  destruct segs as [|sg segs]; [intros []|]. intros H.
+  assert (Hsg : head_ok (sg_text sg) /\ head_is semi (sg_text sg) = false).
+  { destruct segs; [apply H|apply (proj1 H)]; reflexivity. }
+  destruct Hsg as ((Hns & _ & _) & Hsemi).
+  cbn [joined]. apply good_head_joined_from.
+  destruct (sg_text sg) as [|c y]; [destruct Hns|].
+  exists c, y. split; [left; reflexivity|]. split; [exact Hns|].
+  simpl in Hsemi. now rewrite Ascii.eqb_sym.
+Qed.
+
+Lemma emit_done g buf :
+  clean g -> good_head buf ->
+  emit default_cfg g (done_state buf) = Some (stmts_of buf, g).
+Proof.
+  intros (Hdb & Hpd & Hra) Hgh. destruct g as [db pd ra]. simpl in *. subst.
   unfold emit, stmts_of. cbn [done_state linebuffer docbuffer prevdoc reading_alt].
   unfold nonempty.
-  assert (Hq : exists y ys, quote_split semi (" "%char :: buf) = y :: ys /\ y <> []).
-  { unfold quote_split. cbn [qsplit].
-    change (Ascii.eqb " " dq) with false. change (Ascii.eqb " " sq) with false.
-    change (Ascii.eqb " " semi) with false. cbv iota.
-    apply qsplit_head_nonempty. discriminate. }
-  destruct Hq as (y & ys & Eq & Hy). rewrite Eq. cbn [filter].
+  destruct (good_head_split buf Hgh) as (y & ys & Eq & Hy). rewrite Eq. cbn [filter].
   destruct y as [|c y]; [congruence|]. cbn [map]. reflexivity.
 Qed.
 
@@ -563,8 +675,7 @@ Proof.
   - inversion Hok as [|? ? Hit Hf]; subst.
     destruct fuel as [|fuel]; [lia|].
     destruct it as [n|i t|segs].
-    + (* blank line *)
-      cbn [render_file flat_map render_item app file_texts].
+    + cbn [render_file flat_map render_item app file_texts].
       specialize (IH (S fuel) g acc Hg Hf). cbn [count_lines] in Hfuel.
       cbn [read_fuel] in *. rewrite loop_skip_blank by exact Hg. apply IH. exact Hfuel.
     + cbn [render_file flat_map render_item app file_texts].
@@ -573,8 +684,8 @@ Proof.
     + cbn [render_file flat_map render_item file_texts]. cbn [count_lines] in Hfuel.
       cbn [read_fuel]. fold (render_file f).
       rewrite (loop_logical_line g segs (render_file f) Hg Hit).
-      rewrite (emit_done g (ll_text segs) Hg).
-      rewrite (IH fuel g (acc ++ stmts_of (ll_text segs)) Hg Hf) by lia.
+      rewrite (emit_done g (joined segs) Hg (good_head_joined segs Hit)).
+      rewrite (IH fuel g (acc ++ stmts_of (joined segs)) Hg Hf) by lia.
       cbn [app flat_map]. fold (file_texts f). now rewrite <- app_assoc.
 Qed.
 
@@ -590,7 +701,8 @@ Proof.
 Qed.
 
 (* the statements extracted from a file are a function of the character streams of its
-   logical lines only — whatever the cuts, indentation, trailing blanks, comments, blank lines *)
+   logical lines only — whatever the indentation, trailing blanks, comments, blank lines, and
+   (for '&'-led continuation) wherever the cuts are *)
 Theorem file_statements f :
   Forall item_ok f ->
   read_all default_cfg (render_file f) = ROk (flat_map stmts_of (file_texts f)).
@@ -606,6 +718,22 @@ Theorem layout_invariance f1 f2 :
   read_all default_cfg (render_file f1) = read_all default_cfg (render_file f2).
 Proof. intros H1 H2 E. rewrite !file_statements by assumption. now rewrite E. Qed.
 
+(* with '&'-led continuation only, the character stream is the plain concatenation of the
+   segment texts: cuts are invisible *)
+Lemma joined_from_amp segs : forall buf,
+  Forall (fun sg => sg_amp sg = true) segs -> joined_from buf segs = buf ++ ll_text segs.
+Proof.
+  induction segs as [|sg segs IH]; intros buf H; [simpl; now rewrite app_nil_r|].
+  inversion H as [|? ? Ha Hr]; subst. cbn [joined_from]. rewrite Ha, IH by assumption.
+  unfold ll_text. cbn [flat_map]. now rewrite app_assoc.
+Qed.
+
+Theorem joined_all_amp sg segs :
+  Forall (fun x => sg_amp x = true) segs -> joined (sg :: segs) = " "%char :: ll_text (sg :: segs).
+Proof.
+  intros H. cbn [joined]. rewrite joined_from_amp by assumption. reflexivity.
+Qed.
+
 (* ---------- the full statement, its two known exceptions, and witnesses ---------- *)
 
 (* Fortran's own rule for where commentary may stand: after a continued or final line whose end
@@ -619,7 +747,8 @@ Definition seg_okF (st : option ascii) (first last : bool) (sg : seg) : Prop :=
   bang_free st (sg_text sg) = true /\
   match sg_comment sg with Some t => st' = None /\ plain_comment t | None => True end /\
   (last = false -> Forall bline_okF (sg_between sg)) /\
-  (first = true -> nsfirst (sg_text sg) /\ head_is hash (sg_text sg) = false /\ head_is amp (sg_text sg) = false) /\
+  (first = true -> head_ok (sg_text sg) /\ head_is semi (sg_text sg) = false) /\
+  (first = false -> sg_amp sg = false -> head_ok (sg_text sg)) /\
   (last = true -> nslast (sg_text sg) /\ last_is amp (sg_text sg) = false).
 Fixpoint segs_okF (st : option ascii) (first : bool) (l : list seg) : Prop :=
   match l with
@@ -659,8 +788,8 @@ Proof.
   assert (Hsg : forall last, seg_okF st first last sg ->
                 (last = false -> has_comment_line (sg_between sg) && is_some (qrun st (sg_text sg)) = false) ->
                 seg_ok st first last sg).
-  { intros last (A & B & C & D & E & F) Hb.
-    split; [exact A|]. split; [exact B|]. split; [|split; [|split; assumption]].
+  { intros last (A & B & C & D & E & F & G) Hb.
+    split; [exact A|]. split; [exact B|]. split; [|split; [|split; [|split]; assumption]].
     - destruct (sg_comment sg) as [t|]; [|exact I]. destruct C as (C1 & C2).
       split; [|auto]. simpl in R1. destruct st; [discriminate|reflexivity].
     - intros Hl. specialize (D Hl). specialize (Hb Hl).
@@ -691,7 +820,9 @@ Proof.
 Qed.
 
 Definition mkseg (i : nat) (t : str) (tr : nat) (c : option str) (b : list bline) : seg :=
-  {| sg_ind := i; sg_text := t; sg_trail := tr; sg_comment := c; sg_between := b |}.
+  {| sg_amp := true; sg_ind := i; sg_text := t; sg_trail := tr; sg_comment := c; sg_between := b |}.
+Definition mkseg0 (i : nat) (t : str) (tr : nat) (c : option str) (b : list bline) : seg :=
+  {| sg_amp := false; sg_ind := i; sg_text := t; sg_trail := tr; sg_comment := c; sg_between := b |}.
 
 (* x = 'abc&  /  &def' ! comment *)
 Definition witness1 : list fitem :=
@@ -725,12 +856,12 @@ Definition example_file : list fitem :=
           mkseg 2 (s "b', x) ; y = 1 +") 2 None [];
           mkseg 0 (s " 2") 0 (Some (s " done")) []];
    FLine [mkseg 0 (s "pri") 0 None []; mkseg 1 (s "nt *, z ") 0 (Some (s "x")) [BComment 3 (s " c"); BBlank 1];
-          mkseg 0 (s "// 'q'") 3 None []]].
+          mkseg0 5 (s "// 'q'") 3 None [BBlank 3]; mkseg0 0 (s ", 'r'") 0 None []]].
 
 Example example_file_ok :
   Forall item_ok example_file /\
   read_all default_cfg (render_file example_file)
-  = ROk [s "call f('a!;&''b', x)"; s "y = 1 + 2"; s "print *, z // 'q'"].
+  = ROk [s "call f('a!;&''b', x)"; s "y = 1 + 2"; s "print *, z // 'q' , 'r'"].
 Proof.
   split; [|vm_compute; reflexivity].
   repeat constructor; ok_tac.
